@@ -585,5 +585,46 @@ Proof.
   - right. eapply (Hnew a _ n c b yb xb); eauto.
   - congruence.
 Qed.
+
+Lemma gonepc_nl x : gonepc (pc x) = true -> nl x = true.
+Proof. unfold nl. destruct (pc x); cbn; auto; discriminate. Qed.
+
+Lemma sdend_guard s th s' : step_core s th EShutdownEnd = Some s' ->
+  exists order, ((exists r, dpc (get_thread s th) = DLoop order r) \/ dpc (get_thread s th) = DWaitAll order) /\ all_done s order = true.
+Proof. intros H. unfold step_core in H. kind_cases H; eexists; split; eauto. Qed.
+
+Lemma all_done_in s order i : all_done s order = true -> memN i order = true ->
+  exists x, get i (insts s) = Some x /\ l_done x = true.
+Proof.
+  unfold all_done. rewrite forallb_forall. intros H Hm. apply memN_In in Hm. specialize (H i Hm).
+  destruct (get i (insts s)) as [x|]; [eauto|discriminate].
+Qed.
+
+Lemma c_after_step s o th e s' : Rc cs s o -> Inv s o -> step_core s th e = Some s' -> own_ev e = false ->
+  escape_C03 o (th, e) = false -> c_after s' (obs_pre cs o (th, e)).
+Proof.
+  intros HRc HI H Hev Hesc Hsd j x' Hx'.
+  destruct (step_core_inst_bwd _ _ _ _ H Hev j x' Hx') as [(x & Hx & L)|(Hnx & n & c & -> & Hc & ->)].
+  - destruct L as (_ & _ & _ & _ & _ & Hnl).
+    assert (Hdef : forall (Hd : o_sd_done (obs_pre cs o (th, e)) = o_sd_done o)
+                          (Ha : forall k, memN k (o_after_sd_spawn o) = true -> memN k (o_after_sd_spawn (obs_pre cs o (th, e))) = true),
+              memN j (o_after_sd_spawn (obs_pre cs o (th, e))) = true \/ nl x' = true).
+    { intros Hd Ha. rewrite Hd in Hsd. destruct (iv_after _ _ HI Hsd j x Hx); auto. }
+    destruct e; try discriminate Hev;
+    try (apply Hdef; [apply obs_pre_sd_done; exact I|intros k Hk; rewrite obs_pre_after by exact I; exact Hk]).
+    + (* ENewInst *) apply Hdef; [reflexivity|]. intros k Hk. cbn. destruct (_ && _); [|exact Hk]. unfold memN in *. cbn. rewrite Hk. apply orb_true_r.
+    + (* EShutdownEnd *) right. apply Hnl. destruct (sdend_guard _ _ _ H) as (order & Hdp & Had).
+      pose proof (iv_sd _ _ HI th order Hdp) as Hcur.
+      destruct (rc_inst _ _ _ HRc j x Hx) as (xo & Hxo & _). pose proof (iv_inst _ _ HI j x xo Hx Hxo) as P.
+      destruct (memN j order) eqn:Hm.
+      * destruct (all_done_in _ _ _ Had Hm) as (x2 & Hx2 & Hd2). assert (x2 = x) by congruence. subst x2.
+        exact (pi_done _ _ _ P Hd2).
+      * apply gonepc_nl, (pi_gone _ _ _ P). unfold escape_C03 in Hesc. cbn [fst snd] in Hesc.
+        pose proof (existsb_false_in _ _ Hesc (j, xo) (get_in _ _ _ Hxo)) as He. cbn in He.
+        unfold snap_of in He. rewrite Hcur, Hm in He. cbn in He. destruct (o_gone xo); [reflexivity|discriminate].
+  - (* the new instance *) left. cbn in Hsd |- *. unfold escape_C03, byapi_of in Hesc. cbn [fst snd] in Hesc.
+    destruct (o_sd_done o) as [|k]; [lia|]. cbn in Hesc.
+    destruct (get th (o_api o)) as [[]|]; cbn in Hesc; try discriminate; cbn; now rewrite N.eqb_refl.
+Qed.
 (*STOP*)
 End RelC03.
